@@ -190,6 +190,8 @@ class Interp:
             return len(v.items) > 0
         if isinstance(v, Seq):
             return self.decide(f"nonempty({v.tag})")
+        if isinstance(v, Obj) and v.kind == "arrow":
+            return self.decide(f"nonempty({v.tag})")  # a pyarrow table / batch is falsy when it has no rows
         return True  # objects, nodes, functions, classes
 
     def is_none(self, v) -> bool:
@@ -440,6 +442,9 @@ class Interp:
             # pathlib join
             if (isinstance(l, Sym) and l.typ == "path") or (isinstance(l, Str)):
                 return Str([l, "/", self.to_strpart(r)])
+        if isinstance(e.op, ast.Mult) and isinstance(l, Const) and isinstance(r, Const) and (
+                (isinstance(l.v, str) and isinstance(r.v, int)) or (isinstance(l.v, int) and isinstance(r.v, str))) and not isinstance(l.v, bool) and not isinstance(r.v, bool):
+            return Const(l.v * r.v)  # " " * 16
         if isinstance(l, Const) and isinstance(r, Const) and isinstance(l.v, (int, float)) and isinstance(r.v, (int, float)):
             try:
                 return Const({ast.Add: lambda a, b: a + b, ast.Sub: lambda a, b: a - b, ast.Mult: lambda a, b: a * b,
@@ -1127,6 +1132,10 @@ class Interp:
             return Sym(f"{b}({','.join(tagof(x) for x in args)})", origin=("call", b, args, kwargs))
         if d == "functools.partial" and args:
             return Part(args[0], args[1:], kwargs)
+        if d == "types.MappingProxyType" and args and isinstance(args[0], Dct):
+            return args[0]  # a read-only view: same lookups, nobody can write through it
+        if d in ("builtins.frozenset", "frozenset") and args and isinstance(args[0], (Lst, Tup)):
+            return Tup(list(args[0].items))
         if d in ("functools.lru_cache", "functools.cache"):
             # memoisation keyed by == / hash of the arguments (and by their types only when typed=True)
             typed = isinstance(kwargs.get("typed"), Const) and kwargs["typed"].v is True
@@ -1317,6 +1326,18 @@ class Interp:
                 return Const(None)
             if name == "copy":
                 return Lst(recv.items, open=getattr(recv, "open", False))
+            if name in ("update", "add") and isinstance(recv, Lst):
+                # the list stands for a set(): add what is not there yet (by abstract identity / text)
+                new = [a0] if name == "add" else (list(a0.items) if isinstance(a0, (Lst, Tup)) else None)
+                if new is None:
+                    recv.open = True
+                    return Const(None)
+                have = {tagof(x) for x in recv.items}
+                for x in new:
+                    if tagof(x) not in have:
+                        recv.items.append(x)
+                        have.add(tagof(x))
+                return Const(None)
         if isinstance(recv, Dct):
             if name == "get":
                 k = a0.v if isinstance(a0, Const) else tagof(a0)
@@ -1331,6 +1352,8 @@ class Interp:
                     return Sym(f"{recv.shared_name}.get({tagof(a0)})", origin=("dictget", recv, a0))
                 if isinstance(a0, Const) or not recv.items:
                     return args[1] if len(args) > 1 else Const(None)
+                if isinstance(a0, (Ext, ClsRef, EnumV)) and recv.keyvals and all(isinstance(recv.keyvals.get(k), (Ext, ClsRef, EnumV)) for k in recv.items):
+                    return args[1] if len(args) > 1 else Const(None)  # a dict literal keyed by named objects: another named object is not in it
                 return Sym(f"{recv.tag}.get({tagof(a0)})", origin=("dictget", recv, a0))
             if name == "items":
                 return Sym(f"{recv.tag}.items()", origin=("dictitems", recv))
